@@ -572,6 +572,8 @@ def decide(pid, tier, seed, t0):
                     "unit": crate, "fn": f["id"], "repo_file": f["file"], "lines": "%d-%d" % (f["src_line_start"], f["src_line_end"]),
                     "body_sha256": hashlib.sha256(f["body"].encode()).hexdigest(), "loops": f["loops"],
                 })
+                for il in f.get("inlined", []):
+                    dropped.append("%s:%d R22 the call of %s is replaced by its body from %s:%d (closure body substituted for the calls of its closure parameter); line numbers below refer to the text after inlining" % (f["file"], f["src_line_start"], il["callee"], il["file"], il["callee_line"]))
                 for rw in f["rewrites"]:
                     dropped.append("%s:%d %s -> %s" % (f["file"], rw["src_line"], rw["rule"], rw["to"]))
         # obligations = verified + failed queries of functions in the cone (extracted tagged fns, plus every
